@@ -7,7 +7,7 @@ wt=/tmp/asv-mc-$sid; export CARGO_TARGET_DIR=/tmp/asv-seed-target CARGO_NET_OFFL
 git -C /repo worktree remove --force $wt 2>/dev/null
 git -C /repo worktree add -q --detach $wt $base || exit 2
 cd $wt
-run() { cp $M/$demo.rs tests/; timeout 900 cargo test --offline --features weak,internal-test-strategies,serde --test $demo 2>&1 | grep -E "^test |test result|panicked|error(\[|:)|could not compile" | head -12; }
+run() { cp $M/$demo.rs tests/; timeout 1500 cargo test --offline $MC_FLAGS --features weak,internal-test-strategies,serde --test $demo 2>&1 | grep -E "^test |test result|panicked|error(\[|:)|could not compile" | head -12; }
 echo "--- clean + support ($clean)"; eval "$clean" || echo RECIPE-FAILED; c=$(run); echo "$c"
 git checkout -q -- . ; git clean -fdq -e target
 echo "--- mutant + support ($mut)"; eval "$mut" || echo RECIPE-FAILED; m=$(run); echo "$m"
